@@ -25,15 +25,15 @@ func mustDeref(t types.Type) types.Type {
 
 // Prepared holds what is shared (read-only) by all workers.
 type Prepared struct {
-	Prog   *ssa.Program
-	Inits  []*ssa.Function
-	Entry  *ssa.Function
-	Args   []value
-	KBDir  string // directory with heap images <template>.json
-	Mod    string // module path of the code under test
-	reflectPackage *ssa.Package
+	Prog                       *ssa.Program
+	Inits                      []*ssa.Function
+	Entry                      *ssa.Function
+	Args                       []value
+	KBDir                      string // directory with heap images <template>.json
+	Mod                        string // module path of the code under test
+	reflectPackage             *ssa.Package
 	rtypeMethods, errorMethods methodSet
-	runtimeErrorString types.Type
+	runtimeErrorString         types.Type
 }
 
 // Prepare must be called once per loaded program (it rewrites reflect.Value's type).
